@@ -43,3 +43,76 @@ def contracts():
     c = _c08.syncing_contract()
     c.prop = PROP
     return _c10_base2() + [c]
+
+
+
+# ---------------------------------------------------------------------------------------------
+# concrete probe (real event loop): `expr = base.rx.pipe(coroutine function, reactive argument)` — one or two
+# updates of the piped input or of the argument while coroutines are pending, every completion order of the
+# coroutines that were started: the expression ends at the value of the latest inputs
+# ---------------------------------------------------------------------------------------------
+PIPE_ARG_REPLAY = '''import sys, os, asyncio, itertools
+sys.path.insert(0, os.environ.get('PYVC_REPO', '/repo'))
+import param
+from param import rx
+bad = []
+UPDATES = [('f', 3), ('f', 4), ('b', 5), ('b', 6)]
+async def scenario(seq, order_idx, watch):
+    gates = {}
+    started = []
+    async def scale(value, factor):
+        key = (value, factor, len(started))
+        started.append(key)
+        gate = gates.setdefault(key, asyncio.Event())
+        await gate.wait()
+        return value * factor
+    base, factor = rx(7), rx(2)
+    expr = base.rx.pipe(scale, factor)
+    if watch:
+        expr.rx.watch()
+    else:
+        expr.rx.value
+    for _ in range(4):
+        await asyncio.sleep(0)
+    b, f = 7, 2
+    for (which, v) in seq:
+        if which == 'f':
+            factor.rx.value = v; f = v
+        else:
+            base.rx.value = v; b = v
+        if not watch:
+            expr.rx.value
+        for _ in range(4):
+            await asyncio.sleep(0)
+    perms = list(itertools.permutations(range(len(started))))
+    if order_idx >= len(perms):
+        return None
+    for i in perms[order_idx]:
+        gates[started[i]].set()
+        for _ in range(4):
+            await asyncio.sleep(0)
+    await asyncio.sleep(0.01)
+    # anything started late
+    for k in list(gates):
+        gates[k].set()
+    await asyncio.sleep(0.01)
+    got = expr.rx.value
+    if got != b * f:
+        return ('pipe(coroutine, reactive argument)%s: updates %r, completion order %r of the %d started coroutines: the expression ends at %r, the latest inputs give %r'
+                % (' watched' if watch else '', seq, perms[order_idx], len(started), got, b * f))
+    return False
+for n in (1, 2):
+    for seq in itertools.permutations(UPDATES, n):
+        for watch in (True, False):
+            for oi in range(6):
+                r = asyncio.run(scenario(seq, oi, watch))
+                if r is None:
+                    break
+                if r:
+                    bad.append(r)
+if bad:
+    print('REPRODUCED: ' + bad[0]); sys.exit(1)
+print('NOT-REPRODUCED'); sys.exit(0)
+'''
+
+PROBES = globals().get("PROBES", []) + [("pipe(coroutine, reactive argument): the latest inputs win in every completion order", PIPE_ARG_REPLAY)]
